@@ -12,6 +12,7 @@ import (
 	"strings"
 	"time"
 
+	abci "github.com/cometbft/cometbft/abci/types"
 	sdk "github.com/cosmos/cosmos-sdk/types"
 	"github.com/cosmos/cosmos-sdk/types/tx/signing"
 	authtypes "github.com/cosmos/cosmos-sdk/x/auth/types"
@@ -213,6 +214,85 @@ func newTxEnv(s *Stream) *txEnv {
 	return e
 }
 
+// monC15FeeDenoms evaluates C15's coin clause on fees that are not purely in the staking/fee denomination: a
+// custom-module transaction declaring a fee in several denominations must move exactly that fee — every coin of it —
+// from the payer to the fee collector, and change no other balance and no supply.
+func monC15FeeDenoms(s *Stream) {
+	s.Emit("mon.c15.fee-denoms", guard(func() string {
+		old := genesisExtraCoins
+		genesisExtraCoins = sdk.NewCoins(sdk.NewInt64Coin("ukrw", 1000000), sdk.NewInt64Coin("zzz", 500))
+		defer func() { genesisExtraCoins = old }()
+		accts := []*Acct{newAcct("A", []byte("fee-A")), newAcct("B", []byte("fee-B")), newAcct("C", []byte("fee-C"))}
+		c, err := NewChain(memDB(), tmpHome(), accts, 1000000, nil)
+		if err != nil {
+			return "pass #no-chain " + err.Error()
+		}
+		c.Begin(c.Time.Add(time.Second))
+		fc := authtypes.NewModuleAddress(authtypes.FeeCollectorName)
+		snapshot := func() (map[string]sdk.Coins, sdk.Coins) {
+			m := map[string]sdk.Coins{}
+			ctx := c.DeliverCtx()
+			for _, a := range accts {
+				m[a.Name] = c.App.BankKeeper.GetAllBalances(ctx, a.Addr)
+			}
+			m["fee-collector"] = c.App.BankKeeper.GetAllBalances(ctx, fc)
+			var sup sdk.Coins
+			for _, d := range []string{feeDenom, "ukrw", "zzz"} {
+				sup = sup.Add(c.App.BankKeeper.GetSupply(ctx, d))
+			}
+			return m, sup
+		}
+		A, B := accts[0], accts[1]
+		fees := []sdk.Coins{
+			sdk.NewCoins(sdk.NewInt64Coin(feeDenom, 5000), sdk.NewInt64Coin("ukrw", 700)),
+			sdk.NewCoins(sdk.NewInt64Coin("ukrw", 900)),
+			sdk.NewCoins(sdk.NewInt64Coin(feeDenom, 1), sdk.NewInt64Coin("ukrw", 1), sdk.NewInt64Coin("zzz", 3)),
+			sdk.NewCoins(sdk.NewInt64Coin(feeDenom, 4321)),
+		}
+		for i, fee := range fees {
+			var msgs []sdk.Msg
+			signers := []SignerSpec{{Acct: A}}
+			payer := "A"
+			switch i % 2 {
+			case 0:
+				msgs = []sdk.Msg{&aoltypes.MsgCreateTopicRequest{TopicName: fmt.Sprintf("fee%d", i), OwnerAddress: A.Bech()}}
+			default: // add-record with a named fee payer B (first signer), writer A
+				msgs = []sdk.Msg{&aoltypes.MsgAddRecordRequest{TopicName: "fee0", Key: []byte("k"), Value: []byte("v"), WriterAddress: A.Bech(), OwnerAddress: A.Bech(), FeePayerAddress: B.Bech()}}
+				signers = []SignerSpec{{Acct: B}, {Acct: A}}
+				payer = "B"
+			}
+			before, sup0 := snapshot()
+			bz, err := c.BuildTx(TxSpec{Msgs: msgs, Signers: signers, FeeCoins: fee})
+			if err != nil {
+				return "pass #unbuildable " + err.Error()
+			}
+			res := c.App.DeliverTx(abci.RequestDeliverTx{Tx: bz})
+			after, sup1 := snapshot()
+			if !sup0.IsEqual(sup1) {
+				return fmt.Sprintf("fail #supply-changed tx=%d fee=%s", i, fee)
+			}
+			for name, b0 := range before {
+				want := b0
+				if res.Code == 0 || true { // the fee is charged whether or not the messages succeed (ante ran)
+					if name == payer {
+						want = b0.Sub(fee...)
+					}
+					if name == "fee-collector" {
+						want = b0.Add(fee...)
+					}
+				}
+				if !after[name].IsEqual(want) {
+					return fmt.Sprintf("fail #balance tx=%d fee=%s account=%s expected=%s actual=%s code=%d", i, fee, name, want, after[name], res.Code)
+				}
+			}
+			if i == 0 && res.Code != 0 {
+				return fmt.Sprintf("pass #first-tx-rejected code=%d %s", res.Code, res.Log)
+			}
+		}
+		return "pass"
+	}))
+}
+
 func txHistory(s *Stream, rng *rand.Rand, steps int) {
 	e := newTxEnv(s)
 	s.Emit("reset", "-")
@@ -412,6 +492,7 @@ func init() {
 	streams["tx"] = func(dir string, rng *rand.Rand, n int, tier string) {
 		s := NewStream(dir, "tx")
 		defer s.Close(dir, "tx")
+		monC15FeeDenoms(s)
 		for h := 0; h < n; h++ {
 			txHistory(s, rng, 15+rng.Intn(25))
 		}
